@@ -354,6 +354,7 @@ type Enc struct {
 	specVals      map[string]CVal
 	retGuards     []Term
 	boxDecls      map[string]string // box function name -> argument sort
+	clauseSeen    map[string]bool   // iteration / exit clauses: evaluated on at least one path?
 }
 
 type modRef struct {
@@ -374,7 +375,7 @@ func newEnc(p *Program, fn *ssa.Function, fc *FuncC) *Enc {
 		edgeGuard: map[[2]int]Term{}, blockG: map[*ssa.BasicBlock]Term{}, oblCtr: map[string]int{},
 		loops: map[*ssa.BasicBlock]*loopInfo{}, backEdge: map[[2]int]bool{}, debugVals: map[string][]ssa.Value{},
 		params: map[string]CVal{}, mulSeen: map[string]bool{}, okCur: "true", curGuard: tTrue, checked: map[string]*ssa.BasicBlock{},
-		known: map[string]string{}, defs: map[string]string{}, expanded: map[string]string{}, scratchLocals: map[*ssa.Alloc]Term{}, specVals: map[string]CVal{}, boxDecls: map[string]string{}}
+		known: map[string]string{}, defs: map[string]string{}, expanded: map[string]string{}, scratchLocals: map[*ssa.Alloc]Term{}, specVals: map[string]CVal{}, boxDecls: map[string]string{}, clauseSeen: map[string]bool{}}
 	return e
 }
 
@@ -878,4 +879,12 @@ func (e *Enc) boxTerm(key string, v Term) Term {
 	name := "box." + sanitize(key)
 	e.boxDecls[name] = v.Sort
 	return Term{app(name, v.S), sInt}
+}
+
+func (e *Enc) noteClause(key string, ok bool) {
+	if ok {
+		e.clauseSeen[key] = true
+	} else if _, seen := e.clauseSeen[key]; !seen {
+		e.clauseSeen[key] = false
+	}
 }
